@@ -422,7 +422,7 @@ def run(ctx: lib.Ctx) -> None:
     for what, annotated, plain in fixed:
         a, b = observe_text(annotated), observe_text(plain)
         ctx.case(('fixed', annotated), kind='fixed-witness', sample={'code': annotated, 'result': repr(a)[:200]})
-        if a != b or a[0] != 'ok':
+        if (a != b or a[0] != 'ok') and violations < 3:
             ctx.violation(f'annotated and stripped twin differ — {what}', {'annotated': annotated, 'stripped': plain, 'annotated_result': a, 'stripped_result': b,
                                                            'repro': f'Interpreter().execute({annotated!r}) vs Interpreter().execute({plain!r})'}, found=True)
             violations += 1
